@@ -342,6 +342,38 @@ class ModelTemplate:
         self.vars = vars_
 
 
+_HOOKED = {}
+
+
+def hooked_class(base, world, how):
+    """Template class that uses the render hooks (ZDocumentTemplate_
+    beforeRender / afterRender) as a result cache, the way Zope's cacheable
+    DTML objects do.  how: 'cache' | 'cache-raise' (the hook fails on a cache
+    hit)."""
+    key = (base, how)
+    if key not in _HOOKED:
+        class Hooked(base):
+            _vf_world = None
+
+            def ZDocumentTemplate_beforeRender(self, md, default):
+                w = self._vf_world
+                if w is not None:
+                    w.tick(('hook', 'beforeRender'))
+                cached = self.__dict__.get('_vf_cached', default)
+                if cached is not default and how == 'cache-raise':
+                    raise VfA('render hook failed')
+                return cached
+
+            def ZDocumentTemplate_afterRender(self, md, result):
+                w = self._vf_world
+                if w is not None:
+                    w.tick(('hook', 'afterRender'))
+                self.__dict__['_vf_cached'] = result
+        _HOOKED[key] = Hooked
+    cls = _HOOKED[key]
+    return type('Hooked', (cls,), dict(_vf_world=world))
+
+
 def build(spec, world, mode, keep=None):
     """mode: 'impl' (real DocumentTemplate objects) or 'model'."""
     if not isinstance(spec, dict):
@@ -390,6 +422,9 @@ def build(spec, world, mode, keep=None):
         return TreeNode(world, spec['id'],
                         [build(x, world, mode, keep)
                          for x in spec.get('children', [])])
+    if t == 'httpexc':
+        import zExceptions
+        return getattr(zExceptions, spec['n'])(spec.get('msg', 'm'))
     if t == 'proxy':
         return Proxy(build(spec['of'], world, mode, keep))
     if t == 'response':
@@ -410,6 +445,8 @@ def build(spec, world, mode, keep=None):
         syntax = spec.get('syntax', 'dtml')
         src, _ = dtml.print_ast(spec['ast'], syntax)
         cls = String if syntax == 'epfs' else HTML
+        if spec.get('hooks'):
+            cls = hooked_class(cls, world, spec['hooks'])
         tm = cls(src, None, spec.get('name', 'sub'), **defaults)
         if vars_:
             tm.var(**vars_)
